@@ -31,6 +31,9 @@ ChildShapes ==
         <<ChText(<<"a", "sp">>), ChExpr(Ident("cu", FALSE, S(<<115>>)))>>,
         <<ChExpr(Call("g1", PVNode("pv1"))), ChExpr(Ident("cb", TRUE, PVNode("pv4")))>>,
         <<ChSpread(Ident("xs", FALSE, Arr(<<PVNode("e1"), PVNode("e2")>>)))>>,
+        <<ChSpread(Call("gxs", Arr(<<PVNode("e3"), PVNode("e4")>>)))>>,
+        <<ChComment, ChSpread(Member("o1", "list", Arr(<<PVNode("e5")>>)))>>,
+        <<ChSpread(Call("gxs", Arr(<<PVNode("e3")>>))), ChText(<<"a">>)>>,
         <<ChElem(B), ChText(<<"lf", "sp">>), ChElem(B)>>,
         <<ChEmpty, ChExpr(Ident("cu", FALSE, FnR("fd", Arr(<<PVNode("pv3")>>)))), ChComment>>}
 
